@@ -338,21 +338,35 @@ tokio::task_local! {
 /// Global wait-for graph.
 /// Key: waiting actor's ID, Value: target actor's Identity.
 #[cfg(feature = "deadlock-detection")]
-static WAIT_FOR: OnceLock<Mutex<HashMap<u64, Identity>>> = OnceLock::new();
+static WAIT_FOR: OnceLock<Mutex<HashMap<u64, WaitEdge>>> = OnceLock::new();
+
+/// An in-flight ask: the callee and a ticket that distinguishes successive asks of one caller.
+#[cfg(feature = "deadlock-detection")]
+pub(crate) type WaitEdge = (Identity, u64);
 
 #[cfg(feature = "deadlock-detection")]
-pub(crate) fn wait_for_graph() -> &'static Mutex<HashMap<u64, Identity>> {
-    WAIT_FOR.get_or_init(|| Mutex::new(HashMap::new()))
+pub(crate) fn next_wait_ticket() -> u64 {
+    static TICKETS: AtomicU64 = AtomicU64::new(1);
+    TICKETS.fetch_add(1, std::sync::atomic::Ordering::Relaxed)
 }
 
 #[cfg(feature = "deadlock-detection")]
-pub(crate) struct WaitForGuard(pub(crate) u64);
+pub(crate) fn wait_for_graph() -> &'static Mutex<HashMap<u64, WaitEdge>> {
+    WAIT_FOR.get_or_init(|| Mutex::new(HashMap::new()))
+}
+
+/// Removes the edge of one particular ask (caller id, ticket). Held by the asker (covers
+/// timeout and cancellation) and by the envelope (covers reply sent / request destroyed).
+#[cfg(feature = "deadlock-detection")]
+pub(crate) struct WaitForGuard(pub(crate) u64, pub(crate) u64);
 
 #[cfg(feature = "deadlock-detection")]
 impl Drop for WaitForGuard {
     fn drop(&mut self) {
         if let Ok(mut graph) = wait_for_graph().lock() {
-            graph.remove(&self.0);
+            if graph.get(&self.0).map(|edge| edge.1) == Some(self.1) {
+                graph.remove(&self.0);
+            }
         }
     }
 }
@@ -361,12 +375,12 @@ impl Drop for WaitForGuard {
 /// Self-ask (caller == callee) is checked by the caller before invoking this function,
 /// so this only handles cycles of 2+ hops.
 #[cfg(feature = "deadlock-detection")]
-pub(crate) fn has_path(graph: &HashMap<u64, Identity>, from: u64, to: u64) -> bool {
+pub(crate) fn has_path(graph: &HashMap<u64, WaitEdge>, from: u64, to: u64) -> bool {
     let mut current = from;
     let max_steps = graph.len();
     for _ in 0..max_steps {
         match graph.get(&current) {
-            Some(identity) => {
+            Some((identity, _)) => {
                 if identity.id == to {
                     return true;
                 }
@@ -381,7 +395,7 @@ pub(crate) fn has_path(graph: &HashMap<u64, Identity>, from: u64, to: u64) -> bo
 /// Format the cycle path for panic messages.
 #[cfg(feature = "deadlock-detection")]
 pub(crate) fn format_cycle_path(
-    graph: &HashMap<u64, Identity>,
+    graph: &HashMap<u64, WaitEdge>,
     caller: Identity,
     callee: Identity,
 ) -> String {
@@ -393,7 +407,7 @@ pub(crate) fn format_cycle_path(
     let max_steps = graph.len();
     for _ in 0..max_steps {
         match graph.get(&current) {
-            Some(identity) => {
+            Some((identity, _)) => {
                 path.push(identity.to_string());
                 if identity.id == caller.id {
                     break;
@@ -416,7 +430,7 @@ pub fn __verif_wait_for_edges() -> Vec<(u64, u64)> {
         Ok(g) => g,
         Err(poisoned) => poisoned.into_inner(),
     };
-    graph.iter().map(|(k, v)| (*k, v.id)).collect()
+    graph.iter().map(|(k, v)| (*k, v.0.id)).collect()
 }
 
 /// Type-erased payload handler trait for dynamic message dispatch.
@@ -504,6 +518,9 @@ where
         reply_channel: Option<oneshot::Sender<Box<dyn std::any::Any + Send>>>,
         /// The actor reference for potential self-messaging or context.
         actor_ref: ActorRef<T>,
+        /// Removes the asker's wait-for edge as soon as this request has been answered or destroyed.
+        #[cfg(feature = "deadlock-detection")]
+        wait_token: Option<WaitForGuard>,
     },
     /// A signal for the actor to stop gracefully after processing existing messages in its mailbox.
     ///
